@@ -72,7 +72,7 @@ class C08(Prop):
     named_errors = {"Null", "Bounds"}     # "a zero entry as null, an unknown name or out-of-range ordinal as null/bounds"
     pid = "C08"
     title = "export lookups agree with the export tables for every table shape"
-    thm_modules = ["PeliteModel.Thm.C08"]
+    thm_modules = ["PeliteModel.Thm.C08", "PeliteModel.Thm.ImageLayout"]
     gens = [gen_exports.gen_exports_corpus, gen_exports.gen_exports_shapes, gen_exports.gen_exports]
 
     def oracle(self, op, impl, model, spec):
